@@ -36,6 +36,7 @@ type evictOpts struct {
 	symLimit                bool    // the pending job's leaf queue (single-department world) has a symbolic limit
 	gpuDim                  bool    // whole GPUs instead of milli-cpu (requests >= 1)
 	secondNode              bool    // a second node n1 with symbolic free capacity (victims run on n0)
+	strictReclaim           bool    // allow-consolidating-reclaim=false: moved victims count as reclaimed too
 	signatures              bool    // scheduling signatures on (failed jobs' shape prunes later identical ones)
 }
 
@@ -44,6 +45,7 @@ type evictWorld struct {
 	pending *actJob
 	others  []*actJob // further pending jobs
 	victims []*actJob
+	prop    string             // property the fairness assertions are reported under (default C07)
 	pre     map[string]float64 // allocation of every queue before the action
 	o       evictOpts
 }
@@ -161,6 +163,10 @@ func actEvictWorld(o evictOpts) *evictWorld {
 	}
 	w.open()
 	w.ssn.SchedulerParams.UseSchedulingSignatures = o.signatures
+	if o.strictReclaim {
+		w.ssn.OverrideAllowConsolidatingReclaim(false)
+		w.pp.allowConsolidatingReclaim = false
+	}
 	for _, q := range w.queues {
 		ew.pre[q.name] = w.queueAllocated(q.name, false)
 	}
@@ -293,6 +299,13 @@ func VerifC06_PreemptAction() {
 	w.assertVictimsEligible(false, "preempt")
 }
 
+func (w *evictWorld) pid() string {
+	if w.prop == "" {
+		return "C07"
+	}
+	return w.prop
+}
+
 // postAlloc: a queue's allocation after the action, from its allocation before, the evictions and
 // the placement of the pending job.
 func (w *evictWorld) postAlloc(q string) float64 {
@@ -340,7 +353,7 @@ func (w *evictWorld) assertReclaimFair() {
 		}
 		final := w.postAlloc(l)
 		des := w.queueOf(l).deserved
-		vr.Assert((des >= 0 && final+largest > des) || final+largest > fs(l), "C07.reclaim-action-takes-only-from-queues-above-quota-or-fair-share")
+		vr.Assert((des >= 0 && final+largest > des) || final+largest > fs(l), w.pid()+".reclaim-action-takes-only-from-queues-above-quota-or-fair-share")
 	}
 	// (b) the reclaiming queue stays within its fair share (or deserved quota) after receiving the resources
 	for _, p := range append([]*actJob{w.pending}, w.others...) {
@@ -349,10 +362,10 @@ func (w *evictWorld) assertReclaimFair() {
 		}
 		for q := p.queue; q != ""; q = w.queueOf(q).parent {
 			des := w.queueOf(q).deserved
-			vr.Assert(w.postAlloc(q) <= fs(q) || des < 0 || w.postAlloc(q) <= des, "C07.reclaim-action-keeps-reclaimer-within-fair-share")
+			vr.Assert(w.postAlloc(q) <= fs(q) || des < 0 || w.postAlloc(q) <= des, w.pid()+".reclaim-action-keeps-reclaimer-within-fair-share")
 			if !p.preempt && des >= 0 && len(w.others) == 0 {
 				np := p.cpu[0] // the reclaimer's queues hold no other workload in this world
-				vr.Assert(np <= des, "C07.reclaim-action-keeps-non-preemptible-reclaimer-within-quota")
+				vr.Assert(np <= des, w.pid()+".reclaim-action-keeps-non-preemptible-reclaimer-within-quota")
 			}
 		}
 	}
@@ -498,4 +511,27 @@ func VerifC06_ReclaimActionTwoNodes_Thorough() {
 	reclaim.New().Execute(w.ssn)
 	w.observe()
 	w.assertVictimsEligible(true, "reclaim")
+}
+
+// VerifC07_StrictReclaimWithSpareNode: with allow-consolidating-reclaim=false a victim that the
+// solver can re-place on a spare node is still really evicted, so the reclaim must pass the same
+// quota / fair-share rules as any other.
+// BOUND: 2 nodes (n0 full with one running preemptible pod of qb, n1 with symbolic free cpu); one pending pod in qa; every pod 16 milli-cpu; symbolic deserved quotas and fair shares
+func VerifC07_StrictReclaimWithSpareNode() {
+	w := actEvictWorld(evictOpts{bits: 6, nVictims: 1, victimQ: []string{"qb"}, pendingQ: "qa", sameCpu: true, fixedCpu: 16, fixedPreemptibleVictims: true, fixedPending: true, secondNode: true, strictReclaim: true})
+	reclaim.New().Execute(w.ssn)
+	w.observe()
+	w.assertReclaimFair()
+}
+
+// VerifC15_StrictReclaimNeedsAReason: the same world as the mechanism of C15: an eviction that no
+// quota or fair-share rule justifies is exactly what the closed system repeats forever (the evicted
+// pod is re-created, served first, lands on its old node and is evicted again).
+// BOUND: as VerifC07_StrictReclaimWithSpareNode
+func VerifC15_StrictReclaimNeedsAReason() {
+	w := actEvictWorld(evictOpts{bits: 6, nVictims: 1, victimQ: []string{"qb"}, pendingQ: "qa", sameCpu: true, fixedCpu: 16, fixedPreemptibleVictims: true, fixedPending: true, secondNode: true, strictReclaim: true})
+	w.prop = "C15"
+	reclaim.New().Execute(w.ssn)
+	w.observe()
+	w.assertReclaimFair()
 }
